@@ -28,6 +28,7 @@ Definition E_VOTEBOARD : Z := 9.
 Definition E_DELETED : Z := 10.
 Definition E_INVALIDFILENAME : Z := 11.
 Definition E_INVALIDPARAMS : Z := 12.
+Definition E_NOTFOUND : Z := 13.       (* cmsys.ErrRecordNotFound: the board has entries, none with that file name *)
 
 (* ------------------------------------------------------------------ the facts a write decision looks at *)
 Record winp := mk_winp {
@@ -165,7 +166,7 @@ Definition recommend_steps (now : Z) (w : winp) (a : aux) : list step :=
     Guard (restricted w) E_NOTPERMITTED;
     Eff (eff_cd_check now);
     Guard (cooling w) E_COOLDOWN;
-    Guard (negb (a_exists a)) E_INVALIDPARAMS;
+    Guard (negb (a_exists a)) E_NOTFOUND;
     Guard (a_norecommend a || a_locked a) E_NOTPERMITTED ].
     (* then the comment is appended to the article file and the score byte of the entry is rewritten (C10) *)
 
@@ -173,7 +174,7 @@ Definition recommend_steps (now : Z) (w : winp) (a : aux) : list step :=
 Definition edit_post_steps (w : winp) (a : aux) : list step :=
   [ Guard (negb (w_readable w)) E_NOTPERMITTED;
     Guard (w_readonly w || a_voteboard a) E_NOTPERMITTED;
-    Guard (negb (a_exists a)) E_INVALIDFILENAME;
+    Guard (negb (a_exists a)) E_NOTFOUND;
     Guard (a_filevote a) E_NOTPERMITTED;
     Guard (a_deleted a) E_DELETED;
     Guard (negb (w_basic w)) E_NOTPERMITTED;
